@@ -439,6 +439,21 @@ func c05FailParks(c *Ctx, m *Module) {
 			if ok && deferredOnly[top] {
 				// the call sits in a function literal that is run by a defer of the top-level function
 				lit := cs.Parent()
+				// (a literal that is called on the spot inside another literal runs when that one does)
+				for depth := 0; depth < 3 && lit.Parent() != nil && lit.Parent().Parent() != nil; depth++ {
+					onSpot, other := 0, 0
+					for _, in := range instrsOf(lit.Parent()) {
+						if ci, isCall := in.(*ssa.Call); isCall && funcValue(ci.Call.Value) == lit {
+							onSpot++
+						} else if _, isD := in.(*ssa.Defer); isD {
+							other++
+						}
+					}
+					if onSpot != 1 || other != 0 {
+						break
+					}
+					lit = lit.Parent()
+				}
 				isDeferred := false
 				if lit.Parent() != nil {
 					for _, in := range instrsOf(lit.Parent()) {
